@@ -16,13 +16,31 @@ CUSTOMARY = ['100m', '200m', '110mH', '400mH', '5K road', '10K road', 'XC', 'xc'
 FIELDS = ['0', '00', '1', '7', '12', '45', '59', '60', '61', '93', '99']
 FIELDS_BIG = ['100', '104', '999']
 DECS = ['', '0', '5', '05', '99', '999']
-JUNK = ['', ' ', 'abc', '1a', '-5', '1:2:3:4', '1::2', ':', '.', '1.2.3', '1,2,3', '1e3', 'DNF', 'NT', '１２', '٣', '1:', ':1', '1 2', '12:', '1:2:', 'inf', 'nan', '0x10']
+JUNK = ['%', '%s', '12.5%', '1:2%d', '%(x)s', '{}', '{0}', '12{', '\\', '$1', '1\x00', "1'", '', ' ', 'abc', '1a', '-5', '1:2:3:4', '1::2', ':', '.', '1.2.3', '1,2,3', '1e3', 'DNF', 'NT', '１２', '٣', '1:', ':1', '1 2', '12:', '1:2:', 'inf', 'nan', '0x10']
 GENDERS = ['all', 'm', 'f', 'M', 'x', '', 'W', 'Female']
 PRECS = [None, 0, 1, 2, 3]
 
 
 class CustomError(Exception):
     pass
+
+
+class OneArgError(Exception):
+    """an application error class whose constructor takes exactly the message"""
+    def __init__(self, message):
+        super().__init__(message)
+        self.message = message
+
+
+class KeywordError(Exception):
+    """... and one that insists on text and offers an optional field name"""
+    def __init__(self, message, field=None):
+        if not isinstance(message, str):
+            raise TypeError('message must be text, got %r' % (message,))
+        super().__init__(message)
+
+
+KLASSES = {k.__name__: k for k in (ValueError, CustomError, OneArgError, KeywordError)}
 
 
 def setup(tier):
@@ -187,9 +205,11 @@ def work(chunk):
         for text in T:
             for gi, gender in enumerate(GENDERS):
                 for pi, prec in enumerate(PRECS):
-                    for klass in (ValueError, CustomError):
+                    for klass in (ValueError, CustomError, OneArgError, KeywordError):
                         # full cross product on the first gender/prec; other genders and precisions with one error class each
                         if (gi and pi) or (gi and klass is ValueError) or (pi and klass is CustomError and tier == 'quick'):
+                            continue
+                        if klass in (OneArgError, KeywordError) and (gi or pi):      # constructor contracts: default gender and precision
                             continue
                         check_one(G, acc, code, text, gender, prec, klass)
     return acc.pack()
@@ -380,7 +400,7 @@ def replay(rec):
         return concpass.replay(rec)
     G = setup('quick')
     c = rec['case']
-    klass = CustomError if c['error_class'] == 'CustomError' else ValueError
+    klass = KLASSES.get(c['error_class'], ValueError)
     kw = dict(gender=c['gender'], errorKlass=klass)
     if c['prec'] is not None:
         kw['prec'] = c['prec']
